@@ -247,6 +247,7 @@ def standard(prop, tier, seed, cases, classify, direct=None, known_match=None, e
                       {"kind": "correspondence", "what": "model (coq/Lang/Unroll.v) and implementation disagree on %d cases; "
                        "no input on which property %s itself fails was found" % (len(corr_broken), prop),
                        "examples": ex}, no_input=True)
+    common.run_script_replays(chk, known)
     # known findings: replay the committed ones
     for e in known:
         rp = e.get("replay", {})
